@@ -1816,14 +1816,18 @@ class PGPKey(Armorable, ParentRef, PGPObject):
 
         try:
             for sk in itertools.chain([self], self.subkeys.values()):
-                sk._key.unprotect(passphrase)
+                if sk.is_protected:
+                    sk._key.unprotect(passphrase)
             del passphrase
             yield self
 
         finally:
             # clean up here by deleting the previously decrypted secret key material
+            # key material that is not protected (e.g. a subkey added while unlocked) has no ciphertext
+            # to recover it from, so it must be left alone
             for sk in itertools.chain([self], self.subkeys.values()):
-                sk._key.keymaterial.clear()
+                if sk.is_protected:
+                    sk._key.keymaterial.clear()
 
     def add_uid(self, uid, selfsign=True, **prefs):
         """
